@@ -84,53 +84,92 @@ def build_kernels(repo: Repo) -> List[Func]:
 
 
 def r4_2(repo: Repo) -> RuleResult:
+    """Name-independent: the roles are read off the tuple handed to coo_append, (row, col, val, key)."""
     rr = RuleResult("R4.2", "the de-duplication key is injective in (row, column)", floor=4)
+    app = repo.func(COO_FILE, "coo_append")
     for f in build_kernels(repo):
-        defs: Dict[str, ast.AST] = {}
-        for n in walk_no_nested(f.node):
-            if isinstance(n, ast.Assign) and len(n.targets) == 1 and isinstance(n.targets[0], ast.Name):
-                defs.setdefault(n.targets[0].id, []).append(n.value) if False else None
-        sd = {}
-        counts = {}
-        for n in walk_no_nested(f.node):
-            if isinstance(n, ast.Assign) and len(n.targets) == 1 and isinstance(n.targets[0], ast.Name):
-                counts[n.targets[0].id] = counts.get(n.targets[0].id, 0) + 1
-                sd[n.targets[0].id] = n
-        need = ("key", "col", "array_mul")
-        if any(counts.get(k) != 1 for k in need):
-            raise AnalysisError("R4.2: %s no longer defines %s exactly once" % (f.key, need))
-        key, col, mul = sd["key"].value, sd["col"].value, sd["array_mul"].value
-        # which loop variable enumerates the windows?  col = context + i * n_unique_tokens
-        pcol = sym.poly(col)
-        pkey = sym.poly(key, {"col": col})
-        pmul = sym.poly(mul, {"n_windows": sd["n_windows"].value} if "n_windows" in sd else None)
-        row = sd["row"].value if counts.get("row") == 1 else None
-        if row is None:
-            raise AnalysisError("R4.2: `row` is not singly defined in %s" % f.key)
-        want = sym.poly(ast.parse("col + array_mul * row", mode="eval").body, {"col": col, "array_mul": mul})
-        got = sym.poly(key, {"col": col, "array_mul": mul})
+        calls = [c for c in repo.calls_in(f) if app in repo.resolve_call(f, c)]
+        tup = calls[0].args[1] if calls and len(calls[0].args) >= 2 else None
+        if not (isinstance(tup, ast.Tuple) and len(tup.elts) == 4):
+            raise AnalysisError("R4.2: %s does not append a (row, col, val, key) tuple" % f.key)
+        sd = single_defs(f)
+
+        def expand(e, keep=()):
+            cur = e
+            for _ in range(4):
+                names = {n.id for n in ast.walk(cur) if isinstance(n, ast.Name) and n.id in sd and n.id not in keep}
+                if not names:
+                    break
+                cur = sym.substitute(cur, {k: sd[k] for k in names})
+            return cur
+
+        row_e, col_e, key_e = tup.elts[0], tup.elts[1], tup.elts[3]
+        # keep the row / col *names* as atoms when expanding the key, so that key = col + M * row can be read off
+        row_atom = norm(row_e)
+        col_atom = norm(col_e)
+        if not (isinstance(row_e, ast.Name) and isinstance(col_e, ast.Name)):
+            raise AnalysisError("R4.2: row / col handed to coo_append are not plain locals in %s" % f.key)
+        pkey = sym.poly(expand(key_e, keep=(row_atom, col_atom)))
+        k_col, rest = sym.coeff_of(pkey, col_atom)
         problems = []
-        if got != want:
-            problems.append("key `%s` is not col + array_mul * row" % norm(key))
-        # array_mul - n_windows * n_unique_tokens must be a constant >= 0
-        diff = sym.sub(sym.poly(mul), sym.poly(ast.parse("n_windows * n_unique_tokens", mode="eval").body))
-        c = sym.const_of(diff)
-        if c is None or c < 0:
-            problems.append("array_mul `%s` is not n_windows * n_unique_tokens + c with c >= 0 (got remainder %s): two cells can share a key"
-                            % (norm(mul), sym.show(diff)))
-        # col = context + i * n_unique_tokens with i the enumerate index of the windows loop
-        k, rest = sym.coeff_of(pcol, "context")
-        stride_ok = False
-        for m, cc in rest.items():
-            if cc == 1 and len(m) == 2 and "n_unique_tokens" in m:
-                stride_ok = True
-        if k != 1 or not stride_ok or len(rest) != 1:
-            problems.append("column `%s` is not context + i * n_unique_tokens" % norm(col))
-        if problems:
-            rr.bad(f, "key/col/array_mul", "; ".join(problems), sd["key"].lineno)
+        m_poly = None
+        if k_col != 1:
+            problems.append("key `%s` does not contain the column exactly once" % norm(expand(key_e, keep=(row_atom, col_atom))))
         else:
-            rr.ok(f, "key/col/array_mul", "key = col + (n_windows*n_unique_tokens + %d) * row, col = context + i*n_unique_tokens" % c,
-                  sd["key"].lineno)
+            # rest must be M * row: every monomial contains row exactly once
+            m_poly = {}
+            for mono, c in rest.items():
+                if list(mono).count(row_atom) != 1:
+                    problems.append("key is not of the form col + M * row")
+                    m_poly = None
+                    break
+                mm = tuple(x for x in mono if x != row_atom)
+                m_poly[mm] = m_poly.get(mm, 0) + c
+        # column: context + i * n_unique_tokens with `context` / `i` loop variables
+        pcol = sym.poly(expand(col_e))
+        loopvars = set()
+        for n in walk_no_nested(f.node):
+            if isinstance(n, ast.For):
+                loopvars |= set(target_names(n.target))
+        singles = [(m, c) for m, c in pcol.items() if len(m) == 1]
+        pairs = [(m, c) for m, c in pcol.items() if len(m) == 2]
+        stride = None
+        if len(pcol) == 2 and len(singles) == 1 and len(pairs) == 1 and singles[0][1] == 1 and pairs[0][1] == 1 \
+                and singles[0][0][0] in loopvars and (set(pairs[0][0]) & loopvars):
+            stride = [x for x in pairs[0][0] if x not in loopvars]
+            stride = stride[0] if len(stride) == 1 else None
+        if stride is None:
+            problems.append("column `%s` is not <context> + <window index> * <vocabulary size>" % norm(expand(col_e)))
+        c = None
+        if m_poly is not None and stride is not None:
+            # M - n_windows * stride must be a constant >= 0, with n_windows = number of windows = <array>.shape[0]
+            m_exp = {}
+            for mono, cc in m_poly.items():
+                m_exp[mono] = cc
+            # expand names inside M
+            m_txt = sym.show(m_poly)
+            m_full = {}
+            for mono, cc in m_poly.items():
+                term = {(): cc}
+                for atom in mono:
+                    term = sym._mul(term, sym.poly(expand(ast.parse(atom, mode="eval").body)))
+                m_full = sym._add(m_full, term)
+            # the number of windows is whatever multiplies the stride in M
+            for mono, cc in m_full.items():
+                if stride in mono and len(mono) == 2 and cc == 1:
+                    other = [x for x in mono if x != stride][0]
+                    diff = sym.sub(m_full, {mono: 1})
+                    c = sym.const_of(diff)
+                    # `other` must really be the number of windows: the length of the per-window array
+                    if not other.endswith(".shape[0]") and not other.startswith("len("):
+                        c = None
+                    break
+            if c is None or c < 0:
+                problems.append("key multiplier `%s` is not <number of windows> * %s + c with c >= 0: two cells can share a key" % (m_txt, stride))
+        if problems:
+            rr.bad(f, "key/col/array_mul", "; ".join(problems), calls[0].lineno)
+        else:
+            rr.ok(f, "key/col/array_mul", "key = col + (n_windows*%s + %d) * row, col = context + i*%s" % (stride, c, stride), calls[0].lineno)
     return rr
 
 
